@@ -25,13 +25,41 @@ theorem inv_upd {sch : Schema} {s : State} {i : Nat} {l : ALinks} (h : Inv sch s
   · subst hj; simpa [upd] using hl
   · simpa [upd, hj] using h j
 
-theorem relate_inv {sch : Schema} {s : State} (h : Inv sch s) (x y : Inst) (r p : String) :
-    Inv sch (relate sch s x y r p).1 := by
+/-- for two live instances `relate` is `relateCore` -/
+theorem relate_of_live {sch : Schema} {s : State} {x y : Inst} (hx : live s x) (hy : live s y) (r p : String) :
+    relate sch s x y r p = relateCore sch s x y r p := by
+  unfold relate relateCore
+  split
+  · rfl
+  · rw [if_pos ⟨hx, hy⟩]
+
+/-- with an argument that is not in its instance pool: UnknownLinkException as before when there is no such
+    association, RelateException otherwise — and nothing changes -/
+theorem relate_of_not_live {sch : Schema} {s : State} {x y : Inst} (h : ¬ (live s x ∧ live s y)) (r p : String) :
+    (findLink sch (s.kindOf x) (s.kindOf y) r p = none ∧ relate sch s x y r p = (s, .unknownLink)) ∨
+    ((findLink sch (s.kindOf x) (s.kindOf y) r p).isSome = true ∧ relate sch s x y r p = (s, .relateExc)) := by
   unfold relate
+  split
+  · rename_i heq; exact Or.inl ⟨heq, rfl⟩
+  · rename_i i d heq; rw [if_neg h]; exact Or.inr ⟨by rw [heq]; rfl, rfl⟩
+
+theorem relate_not_live_fst {sch : Schema} {s : State} {x y : Inst} (h : ¬ (live s x ∧ live s y)) (r p : String) :
+    (relate sch s x y r p).1 = s ∧ (relate sch s x y r p).2 ≠ .ok := by
+  rcases relate_of_not_live (sch := sch) h r p with ⟨_, h'⟩ | ⟨_, h'⟩ <;> rw [h'] <;> exact ⟨rfl, fun e => by cases e⟩
+
+theorem relateCore_inv {sch : Schema} {s : State} (h : Inv sch s) (x y : Inst) (r p : String) :
+    Inv sch (relateCore sch s x y r p).1 := by
+  unfold relateCore
   split
   · exact h
   · rename_i i d _
     exact inv_upd h (relateOn_inv (h i))
+
+theorem relate_inv {sch : Schema} {s : State} (h : Inv sch s) (x y : Inst) (r p : String) :
+    Inv sch (relate sch s x y r p).1 := by
+  by_cases hl : live s x ∧ live s y
+  · rw [relate_of_live hl.1 hl.2]; exact relateCore_inv h x y r p
+  · rw [(relate_not_live_fst hl r p).1]; exact h
 
 theorem unrelate_inv {sch : Schema} {s : State} (h : Inv sch s) (x y : Inst) (r p : String) :
     Inv sch (unrelate sch s x y r p).1 := by
@@ -88,7 +116,10 @@ theorem run_inv_from (sch : Schema) : ∀ (ops : List Op) (s : State), Inv sch s
 
 theorem relate_reject_atomic {sch : Schema} {s : State} (h : Inv sch s) {x y : Inst} {r p : String}
     (hr : (relate sch s x y r p).2 ≠ .ok) : (relate sch s x y r p).1 = s := by
-  unfold relate at hr ⊢
+  by_cases hl : live s x ∧ live s y
+  case neg => exact (relate_not_live_fst hl r p).1
+  rw [relate_of_live hl.1 hl.2] at hr ⊢
+  unfold relateCore at hr ⊢
   split
   · rfl
   · rename_i i d heq
@@ -130,9 +161,10 @@ theorem state_links_upd_upd (s : State) (i : Nat) (l : ALinks) :
 /-- relating an already related pair returns ok and changes nothing -/
 theorem relate_idempotent {sch : Schema} {s : State} (h : Inv sch s) {x y : Inst} {r p : String} {i : Nat} {d : Dir}
     (hf : findLink sch (s.kindOf x) (s.kindOf y) r p = some (i, d))
-    (hrel : (orient d x y).2 ∈ (s.links i).src (orient d x y).1) :
+    (hrel : (orient d x y).2 ∈ (s.links i).src (orient d x y).1) (hx : live s x) (hy : live s y) :
     relate sch s x y r p = (s, .ok) := by
-  unfold relate
+  rw [relate_of_live hx hy]
+  unfold relateCore
   simp only [hf, relateOn_idempotent (h i).1 hrel]
   rw [state_links_id]
 
@@ -142,7 +174,13 @@ theorem unrelate_undoes_relate {sch : Schema} {s s' : State} (h : Inv sch s) {x 
     (hf : findLink sch (s.kindOf x) (s.kindOf y) r p = some (i, d))
     (hnew : (orient d x y).2 ∉ (s.links i).src (orient d x y).1)
     (hr : relate sch s x y r p = (s', .ok)) : unrelate sch s' x y r p = (s, .ok) := by
-  unfold relate at hr
+  have hl : live s x ∧ live s y := by
+    apply Classical.byContradiction
+    intro hn
+    have := (relate_not_live_fst (sch := sch) hn r p).2
+    rw [hr] at this; exact this rfl
+  rw [relate_of_live hl.1 hl.2] at hr
+  unfold relateCore at hr
   simp only [hf] at hr
   have hr2 : (relateOn (specAt sch i) (s.links i) (orient d x y).1 (orient d x y).2).2 = .ok := by
     have := congrArg Prod.snd hr; simpa using this
@@ -167,7 +205,9 @@ theorem poolInv_init : PoolInv init := fun _ => ⟨List.nodup_nil, fun _ h => by
 theorem relate_frame (sch : Schema) (s : State) (x y : Inst) (r p : String) :
     (relate sch s x y r p).1.pool = s.pool ∧ (relate sch s x y r p).1.kindOf = s.kindOf ∧
     (relate sch s x y r p).1.count = s.count ∧ (relate sch s x y r p).1.idOf = s.idOf := by
-  unfold relate; split <;> simp
+  unfold relate; split
+  · simp
+  · split <;> simp
 
 theorem unrelate_frame (sch : Schema) (s : State) (x y : Inst) (r p : String) :
     (unrelate sch s x y r p).1.pool = s.pool ∧ (unrelate sch s x y r p).1.kindOf = s.kindOf ∧
@@ -339,12 +379,16 @@ theorem live_congr {s s' : State} (h1 : s'.pool = s.pool) (h2 : s'.kindOf = s.ki
     (x : Inst) : live s' x ↔ live s x := by
   unfold live; rw [h1, h2, h3]
 
-theorem relate_liveOnly {sch : Schema} {s : State} (hl : LiveOnly s) {x y : Inst} {r p : String}
-    (hx : live s x) (hy : live s y) : LiveOnly (relate sch s x y r p).1 := by
+theorem relate_liveOnly {sch : Schema} {s : State} (hl : LiveOnly s) {x y : Inst} {r p : String} :
+    LiveOnly (relate sch s x y r p).1 := by
+  by_cases hlv : live s x ∧ live s y
+  case neg => rw [(relate_not_live_fst hlv r p).1]; exact hl
+  obtain ⟨hx, hy⟩ := hlv
   have hf := relate_frame sch s x y r p
   intro j z w hm
   rw [live_congr hf.1 hf.2.1 hf.2.2.1, live_congr hf.1 hf.2.1 hf.2.2.1]
-  unfold relate at hm
+  rw [relate_of_live hx hy] at hm
+  unfold relateCore at hm
   split at hm
   · exact hl j z w hm
   · rename_i i d _
